@@ -43,6 +43,22 @@ func main() {
 		os.Exit(cmdAll(os.Args[2:]))
 	case "replay":
 		os.Exit(cmdReplay(os.Args[2:]))
+	case "probe-ta":
+		cfg, _ := props.ConfigByName("default")
+		p, err := an.Load("/repo", cfg)
+		if err != nil {
+			fmt.Println(err)
+			os.Exit(2)
+		}
+		props.ProbeTypeAsserts(p)
+	case "probe-la":
+		cfg, _ := props.ConfigByName("default")
+		p, err := an.Load("/repo", cfg)
+		if err != nil {
+			fmt.Println(err)
+			os.Exit(2)
+		}
+		props.ProbeLookahead(p)
 	case "whywrites":
 		cmdWhy(os.Args[2:])
 	case "dump":
